@@ -58,21 +58,27 @@ class TransferShelveCache:
 
         with shelve.open(db_path, flag='c') as database:
             # Update/add transfers
+            keys = set()
             for transfer in transfers:
+                # Hash an unambiguous representation of the identifying fields:
+                # plain concatenation maps ('ab', 'c') and ('a', 'bc') to the
+                # same key
                 key = hashlib.sha256(
-                    (
-                        transfer.username +
-                        transfer.remote_path +
-                        str(transfer.direction.value)
+                    repr(
+                        (
+                            transfer.username,
+                            transfer.remote_path,
+                            transfer.direction.value
+                        )
                     ).encode('utf-8')
                 ).hexdigest()
+                keys.add(key)
                 database[key] = transfer
 
-            # Remove non existing transfers
-            keys_to_delete = []
-            for key, db_transfer in database.items():
-                if not any(transfer == db_transfer for transfer in transfers):
-                    keys_to_delete.append(key)
+            # Remove non existing transfers. This also removes entries stored
+            # under the keys used by older versions, those transfers have just
+            # been written under their current key
+            keys_to_delete = [key for key in database.keys() if key not in keys]
             for key_to_delete in keys_to_delete:
                 database.pop(key_to_delete)
 
